@@ -22,6 +22,37 @@ PROPS = {
         "trusted": BT_TRUST,
         "assumptions": ["sequential clients; cell values far smaller than one gRPC message"],
     },
+    "C12": {
+        "lean": "Emu.Props.C12",
+        "diffs": [{"cmd": "bt", "scenario": "c12", "quick": 120, "thorough": 3000}],
+        "facts": [],
+        "trusted": BT_TRUST,
+        "assumptions": ["the row-sample filter's random draw is pinned through the verif hook"],
+    },
+    "C13": {
+        "lean": "Emu.Props.C13",
+        "diffs": [{"cmd": "bt", "scenario": "c13", "quick": 120, "thorough": 3000}],
+        "facts": [],
+        "trusted": BT_TRUST,
+        "assumptions": [],
+    },
+    "C14": {
+        "lean": "Emu.Props.C14",
+        "diffs": [{"cmd": "bt", "scenario": "c14", "quick": 100, "thorough": 2500}],
+        "facts": ["bt.server_rpc_methods"],
+        "trusted": BT_TRUST,
+        "assumptions": [],
+    },
+    "C16": {
+        "lean": "Emu.Props.C16",
+        "diffs": [
+            {"cmd": "bt", "scenario": "c16", "quick": 100, "thorough": 2500},
+            {"cmd": "bt", "scenario": "c16w", "quick": 25, "thorough": 400},
+        ],
+        "facts": [],
+        "trusted": BT_TRUST + ["the 15-60 s timer loop (gcloop) is not modelled; a pass is forced through the verif hook with the injected clock"],
+        "assumptions": ["interleaved writes at the lock reversals are SetCells on rows that exist during the whole pass (whether a row inserted during a pass is visited by it is engine dependent and not fixed by the property)"],
+    },
     "C02": {
         "lean": "Emu.Props.C02",
         "diffs": [
